@@ -379,3 +379,24 @@ PROPS["C01"]["drift"] = PROPS["C01"]["drift"] + TRIGGER_GLUE
 # the progress reporter's quiescence after Stop (no progress reported after the run returned, no
 # goroutine left) is the runner's: the runner stage of C18 also decides that part of C05
 PROPS["C05"]["stages"] = PROPS["C05"]["stages"] + [st for st in PROPS["C18"]["stages"] if st["name"] == "c18"]
+
+# what the eleventh seed series added: units are built, interleaved, re-used and outlived on purpose
+_ACROSS = {
+    "C01": "outcomes recorded on the run's progress.Stats with the durations of a coarse clock (multiples of its granularity, 0 ns included) under forced snapshots with the reporter's own periods",
+    "C02": "scripted-rate runs in which a users stage comes first on the run's pool manager, a burst of hundreds of thousands still pending at the cancel",
+    "C03": "identifiers are read after the run from the strings the invocations were handed",
+    "C04": "command-line runs on one f1 instance: another --concurrency first, then the measured run with the option left out (default 100) or explicit; ticks asking for nothing before a usability tick",
+    "C06": "a quarter of the whole-run cases are the second run on their scenario registration",
+    "C07": "bodies behind passing parts of a combined scenario; stage c07conc: 2-4 helper goroutines reporting a failure at the same instant, tens of thousands of iterations",
+    "C08": "command-line runs that leave tolerances out after an execution (another instance, flags or config file) that was given generous ones",
+    "C09": "consecutive triggers on one pool manager, an earlier one ending while its ticking goroutine is more than an interval behind",
+    "C11": "pairs of profiles of one curve at two tick frequencies built one after the other",
+    "C12": "two or three distributions alive at once and stepped in turn, one moving through more than 64 distinct rates",
+    "C15": "the same config bytes read again at other instants, later and earlier",
+    "C16": "stage c16global: f1.New().WithStaticMetrics with a push gateway in the environment in child processes of their own, the process-wide instance asked for before the first execution or not",
+    "C18": "stage c18many: runners on (or stopped on) their last schedule, then 16-64 new runners, every one invoked",
+    "C19": "half of the logged lines go to a handler that keeps the records and are formatted a dozen lines later",
+    "C20": "marks also make passing assertions through the handle's own Require() and through assert",
+}
+for _pid, _txt in _ACROSS.items():
+    PROPS[_pid]["rule"] = PROPS[_pid]["rule"] + "; across units: " + _txt
